@@ -1,9 +1,9 @@
 (* Dispatch.v -- the table of all correspondence entries (see Entry.v): the concatenation of the
    tables of the layers.  Used extracted (ocaml/driver) and by vm_compute (gen/Golden_*.v). *)
-Require Import MB.GoSem MB.Val MB.Entry MB.DispPacket MB.DispRegisters MB.DispConc MB.DispClient MB.DispServer MB.DispBuilder.
+Require Import MB.GoSem MB.Val MB.Entry MB.DispPacket MB.DispRegisters MB.DispConc MB.DispClient MB.DispServer MB.DispBuilder MB.DispLifecycle.
 From Coq Require Import String.
 
-Definition table : list entry := table_packet ++ table_registers ++ table_conc ++ table_client ++ table_server ++ table_builder.
+Definition table : list entry := table_packet ++ table_registers ++ table_conc ++ table_client ++ table_server ++ table_builder ++ table_lifecycle.
 
 Definition lookup (n : string) : option entry := lookup_in table n.
 Definition case_ok (c : case) : bool := case_ok_in table c.
